@@ -174,6 +174,14 @@ pub enum Error {
         cycle: String,
     },
 
+    /// An interface inherits from itself, either directly or through other interfaces.
+    CyclicInheritance {
+        /// The type id of the interface that caused the error.
+        type_id: String,
+        /// The cycle that was found.
+        cycle: String,
+    },
+
     /// No element with the specified identifier was found.
     DoesNotExist {
         /// The identifier that was not found.
@@ -495,6 +503,12 @@ implement_diagnostic_functions!(
         CannotBeCompact,
         format!("'{kind}' '{identifier}' cannot be marked compact"),
         kind, identifier
+    ),
+    (
+        "E037",
+        CyclicInheritance,
+        format!("interface {type_id} illegally inherits from itself: {cycle}"),
+        type_id, cycle
     )
 );
 
